@@ -169,6 +169,11 @@ def step (c : Cfg) (s : State) : Op → State × Out
   | .recv => recv s
   | .late => callback c s
 
+/-- `Connection.writePump` / the ws client's write loop: each batch dequeued from `Queue`
+(`recv`) is written as one websocket binary frame, `conn.WriteMessage(BinaryMessage, message)`,
+unchanged. -/
+def writeFrame (batch : Bytes) : Bytes := batch
+
 /-- run a sequence of atomic steps: final state and the outputs, one per step -/
 def run (c : Cfg) : State → List Op → State × List Out
   | s, [] => (s, [])
